@@ -1,4 +1,4 @@
-import OsacaVerif.Lemmas.A64MemOp
+import OsacaVerif.Lemmas.A64Ident
 import OsacaVerif.Lemmas.A64File
 /-
   C10 — AArch64 parser recovers every line and operand exactly as written.
@@ -235,15 +235,25 @@ theorem conditions_complete : condLits = [ofString "eq", ofString "ne", ofString
 
 /-- operand kinds for which the full round trip is closed so far.
     `last`: the operand is the last one of the line (a memory reference has to be);
-    `fst`: it stands in the first operand slot (a condition code may not). -/
+    `fst`: it stands in the first operand slot (a condition code may not, a prefetch operation must). -/
 inductive CoveredKind : Bool → Bool → OpA → Prop where
   | scalar (last fst : Bool) (p n : Nat) (hp : isScalarPrefixC p = true) : CoveredKind last fst (.reg (.scalar p n))
   | alias (last fst : Bool) (t : Txt) (ht : t ∈ aliasTexts) : CoveredKind last fst (.reg (.alias t))
   | vec (last fst : Bool) (p n : Nat) (lanes : Option Txt) (shape idx : Option Nat)
       (hp : isVectorPrefixC p = true) (hl : LanesOk lanes) (hs : ShapeOk shape) :
       CoveredKind last fst (.reg (.vec p n lanes shape idx))
+  | pred (last fst : Bool) (p n : Nat) (tail : PredTail) (hp : lowerC p = 112) (ht : PredTailOk tail) :
+      CoveredKind last fst (.reg (.pred p n tail))
   | int (last fst : Bool) (i : IntA) : CoveredKind last fst (.int i)
+  | flt (last fst : Bool) (hash neg : Bool) (ip fp : Txt) (e : Option (Nat × Nat × Txt)) (f : Option Nat)
+      (hok : FltOk ip fp e f) : CoveredKind last fst (.flt hash neg ip fp e f)
+  | shimm (last fst : Bool) (hash hex : Bool) (v : Nat) (op : Txt) (ah : Bool) (amt : Nat)
+      (hop : lower op ∈ scaleOps) : CoveredKind last fst (.shimm hash hex v op ah amt)
   | cond (last : Bool) (c : Txt) (hc : lower c ∈ condLits) : CoveredKind last false (.cond c)
+  | ident (last fst : Bool) (name : Txt) (hok : IdentNameOk name) :
+      CoveredKind last fst (.ident ⟨false, none, name, none⟩)
+  | prf (last : Bool) (t g p : Txt) (ht : lower t ∈ prfT) (hg : lower g ∈ prfG) (hp : lower p ∈ prfP) :
+      CoveredKind last true (.prf t g p)
   | mem (fst : Bool) (m : MemA) (hm : MemOk m) : CoveredKind true fst (.mem m)
 
 theorem coveredKind_covered (last fst : Bool) (o : OpA) (h : CoveredKind last fst o) : CoveredOp last fst o := by
@@ -251,8 +261,13 @@ theorem coveredKind_covered (last fst : Bool) (o : OpA) (h : CoveredKind last fs
   | scalar _ _ p n hp => exact covered_scalar last fst p n hp
   | alias _ _ t ht => exact covered_alias last fst t ht
   | vec _ _ p n lanes shape idx hp hl hs => exact covered_vec last fst p n lanes shape idx hp hl hs
+  | pred _ _ p n tail hp ht => exact covered_pred last fst p n tail hp ht
   | int _ _ i => exact covered_int last fst i
+  | flt _ _ hash neg ip fp e f hok => exact covered_flt last fst hash neg ip fp e f hok
+  | shimm _ _ hash hex v op ah amt hop => exact covered_shimm last fst hash hex v op ah amt hop
   | cond _ c hc => exact covered_cond last c hc
+  | ident _ _ name hok => exact covered_ident last fst name hok
+  | prf _ t g p ht hg hp => exact covered_prf last t g p ht hg hp
   | mem _ m hm => exact covered_mem fst m hm
 
 /-- every operand is of a covered kind at its position (valid operand order: memory reference last) -/
@@ -269,21 +284,24 @@ theorem opsCovered_of_kinds (fst : Bool) (os : List OpA) (h : KindsOk fst os) : 
   TODO-FULL  a64_roundtrip: for every instruction AST `a` of the property's domain (`InstrOk a`, operands
   in valid order with every kind of `Spec.A64.OpA`) and every layout,
       parseLine (render a gaps) = .ok (expectLine a).
-  Proved below for the operand kinds of `CoveredKind`.  Not yet covered: predicate registers, register
-  lists and ranges (their expansion is `range_expand`), floating-point and shifted immediates, identifiers
-  (with relocation/offset), prefetch operations, and identifier offsets inside memory references.
+  Proved below for the operand kinds of `CoveredKind`.  Not yet covered at text level: register lists
+  and ranges (their expansion is `range_expand`), identifiers with relocation / offset / `#`, and
+  identifier offsets inside memory references.
   The general machinery (`roundtrip_covered`) is independent of the kinds: a further kind needs only its
   `CoveredOp` lemma (see `Lemmas/A64Vector.lean` for a single-piece and `Lemmas/A64MemOp.lean` for a
   multi-piece kind).
 -/
 
 /-- **a64_roundtrip_partial**: ∀ mnemonics, ∀ operand lists of up to five operands in valid order
-    (memory reference last, no condition code first) whose kinds are
+    (prefetch operation first, memory reference last, no condition code first) whose kinds are
       * scalar registers `[xwbhsdq]N` in either case (∀ N), the aliases `sp wsp xzr wzr` in either case,
       * vector / SVE registers `vN`, `vN.<lanes><shape>`, `zN.<shape>`, `…[idx]` (∀ N, lanes, shape, idx),
+      * predicate registers `pN`, `pN/z`, `pN/m`, `pN.<shape>` (either case),
       * integer immediates (∀ values; decimal or hexadecimal with lower/upper-case digits; with or
-        without `#`; signed),
-      * condition codes (the 17 codes in any case),
+        without `#`; signed), floating-point immediates (mantissa, optional signed exponent, optional
+        `f`), shifted immediates `#imm, lsl #n` (value `imm·2^n`, ∀ n),
+      * condition codes (the 17 codes in any case), label names (`IdentNameOk`: not spelled like a
+        register, alias, condition code, shift operator or prefetch type), prefetch operations,
       * memory references `[base]`, `[base, #imm]`, `[base, index]`, `[base, index, op]`,
         `[base, index, op #n]` with `op ∈ lsl uxtw sxtw sxtx` in any case (∀ n: scale `2^n`), base and
         index scalar registers or sp/zr aliases, optionally `!` or a post-index immediate,
